@@ -104,6 +104,10 @@ Inductive c12case :=
 (* is_private of the key(s) returned by a generating entry point called with flag [private]
    (positionally or by keyword; an omitted flag is the default True) *)
 | CGen (en : gen_entry) (k : kind) (private : pv) (expect : res (list bool))
+(* a sequence of calls on ONE key object; expect = the result of every call (RUnit for
+   ensure_kid, RStr for thumbprint) and the final dict_value *)
+| CHistory (k : kind) (raw_private : bool) (d : kd) (thumbs : list (kd * str)) (ops : list kop)
+           (expect : list kout) (final : kd)
 (* registry flags seen through the live class: (name, bool(private), required) *)
 | CFlags (k : kind) (flags : list (str * bool * bool)).
 
@@ -113,6 +117,21 @@ Definition reg_flags (reg : list kparam) : list (str * bool * bool) :=
 Definition flags_eqb (a b : list (str * bool * bool)) : bool :=
   list_eqb (fun x y => let '(n, p, r) := x in let '(n', p', r') := y in
                        str_eqb n n' && Bool.eqb p p' && Bool.eqb r r') a b.
+
+Definition kout_eqb (a b : kout) : bool :=
+  match a, b with
+  | RDict x, RDict y => res_eqb kd_eqb x y
+  | RUnit x, RUnit y => res_eqb (fun _ _ => true) x y
+  | RStr x, RStr y => res_eqb str_eqb x y
+  | _, _ => false
+  end.
+
+Definition history_of (c : c12case) : option (kd * list kout) :=
+  match c with
+  | CHistory k rp d t ops _ _ =>
+      Some (run_history (table_H t) (value_registry k) (match k with KOct => true | _ => rp end) d ops)
+  | _ => None
+  end.
 
 Definition c12_out (c : c12case) : res (list kd) + res export + list (str * bool * bool) + res (list bool) :=
   match c with
@@ -130,6 +149,8 @@ Definition c12_out (c : c12case) : res (list kd) + res export + list (str * bool
   | CAsBytes rp enc private pw _ => inl (inl (inr (as_bytes_kind rp enc private pw)))
   | CFlags k _ => inl (inr (reg_flags (value_registry k)))
   | CGen en k private _ => inr (gen_is_private en k private)
+  | CHistory _ _ _ _ _ _ _ =>      (* rendered through history_of; here only the final dict *)
+      inl (inl (inl (match history_of c with Some (d, _) => Ok [d] | None => Err EAssert end)))
   end.
 
 Definition c12_check (c : c12case) : bool :=
@@ -143,6 +164,11 @@ Definition c12_check (c : c12case) : bool :=
   | CAsBytes _ _ _ _ e, inl (inl (inr r)) => res_eqb export_eqb r e
   | CFlags _ f, inl (inr g) => flags_eqb g f
   | CGen _ _ _ e, inr r => res_eqb (list_eqb Bool.eqb) r e
+  | CHistory _ _ _ _ _ e f, _ =>
+      match history_of c with
+      | Some (d, outs) => kd_eqb d f && list_eqb kout_eqb outs e
+      | None => false
+      end
   | _, _ => false
   end.
 
